@@ -2,6 +2,7 @@ package main
 
 import (
 	"fmt"
+	"go/ast"
 	"go/parser"
 	"go/token"
 	"go/types"
@@ -1498,6 +1499,11 @@ func (v *Verifier) havocLoopLocals(st *State, h *ssa.BasicBlock, blocks map[*ssa
 
 func (v *Verifier) bindLoopVars(st *State, env *Env, h *ssa.BasicBlock) {
 	f := st.top()
+	for _, it := range f.iters {
+		if it.isStr && it.pos != nil {
+			env.vars["zz_pos"] = Val{it.pos, types.Typ[types.Int]}
+		}
+	}
 	for _, in := range h.Instrs {
 		if phi, ok := in.(*ssa.Phi); ok && phi.Comment == "rangeindex" {
 			if t, ok := f.vals[phi]; ok {
@@ -1507,6 +1513,72 @@ func (v *Verifier) bindLoopVars(st *State, env *Env, h *ssa.BasicBlock) {
 	}
 }
 
+// useAxioms instantiates named axioms (`use name(args)`) at the given argument terms.
+func (v *Verifier) useAxioms(st *State, env *Env, uses []ast.Expr) {
+	for _, u := range uses {
+		call, ok := u.(*ast.CallExpr)
+		if !ok {
+			continue
+		}
+		id, ok := call.Fun.(*ast.Ident)
+		if !ok {
+			continue
+		}
+		ax := v.C.Axioms[id.Name]
+		if ax == nil || len(ax.Params) != len(call.Args) {
+			v.errorf("use %s: unknown axiom or arity", id.Name)
+			continue
+		}
+		body := " " + ax.Body + " "
+		okAll := true
+		for i, p := range ax.Params {
+			pn := strings.Fields(p)[0]
+			a, err := env.neutral().eval(call.Args[i])
+			if err != nil {
+				v.errorf("use %s: %v", id.Name, err)
+				okAll = false
+				break
+			}
+			body = replaceWord(body, pn, a.T.String())
+		}
+		if okAll {
+			for _, tok := range strings.FieldsFunc(body, func(r rune) bool { return r == '(' || r == ')' || r == ' ' }) {
+				if strings.HasPrefix(tok, "zz_") {
+					if sf, ok := v.C.SpecFuns[strings.TrimPrefix(tok, "zz_")]; ok {
+						v.D.declFun(tok, sf.Args, sf.Ret)
+					}
+				}
+			}
+			v.D.declFun("zz_runeat", []string{"String", "Int"}, "Int")
+			v.D.declFun("zz_runenext", []string{"String", "Int"}, "Int")
+			st.assume(mk("Bool", strings.TrimSpace(body)))
+		}
+	}
+}
+
+func replaceWord(s, w, by string) string {
+	var sb strings.Builder
+	i := 0
+	for i < len(s) {
+		j := strings.Index(s[i:], w)
+		if j < 0 {
+			sb.WriteString(s[i:])
+			break
+		}
+		j += i
+		before := j == 0 || strings.ContainsRune(" ()", rune(s[j-1]))
+		after := j+len(w) >= len(s) || strings.ContainsRune(" ()", rune(s[j+len(w)]))
+		if before && after {
+			sb.WriteString(s[i:j])
+			sb.WriteString(by)
+		} else {
+			sb.WriteString(s[i : j+len(w)])
+		}
+		i = j + len(w)
+	}
+	return sb.String()
+}
+
 func (v *Verifier) assumeInvariants(st *State, lc *LoopContract, h *ssa.BasicBlock) {
 	if lc == nil {
 		return
@@ -1514,6 +1586,7 @@ func (v *Verifier) assumeInvariants(st *State, lc *LoopContract, h *ssa.BasicBlo
 	env := v.topEnv(st)
 	env.mode = 1
 	v.bindLoopVars(st, env, h)
+	v.useAxioms(st, env, lc.Uses)
 	for _, inv := range lc.Invariants {
 		g, err := env.evalBool(inv.Expr)
 		if err != nil {
@@ -1531,6 +1604,7 @@ func (v *Verifier) checkInvariants(st *State, lc *LoopContract, kind string, h *
 	env := v.topEnv(st)
 	env.mode = 2
 	v.bindLoopVars(st, env, h)
+	v.useAxioms(st, env, lc.Uses)
 	for _, inv := range lc.Invariants {
 		g, err := env.evalBool(inv.Expr)
 		if err != nil {
@@ -1763,6 +1837,7 @@ func (v *Verifier) finishPath(st *State, rs []*Term) {
 			env.vars[con.Results[i]] = Val{r, ty}
 		}
 	}
+	v.useAxioms(st, env, con.Uses)
 	// the function's own ghost updates take effect at return
 	for _, gu := range con.GhostUpd {
 		e2 := *env
